@@ -184,7 +184,7 @@ def mask_rule(ctx):
         math.ceil, divmod, a helper with one return per parity ...)."""
         if e is None:
             return None
-        v = int_formula_verdict(e, n, lambda k: (k + 1) // 2, lo=1, conds=path_conds)
+        v = int_formula_verdict(e, n, lambda k: (k + 1) // 2, lo=1, hi=(4096 if getattr(ctx, "tier", "quick") == "thorough" else 96), conds=path_conds)
         if v is True or v is None:
             return v
         half_notes.append("`%s` gives %s for %s = %d; ceil(%s / 2) is %d" % (norm_text(e), v[2], n, v[1], n, v[3]))
